@@ -283,11 +283,19 @@ theorem step_quiet (w : W) (e : Ev) (hq : Quiet w) :
     cases n with
     | next v => simp [step, hotEmit, h3, Quiet, dlvOf, h1, h2]
     | error x =>
-      simp only [step, hotEmit, h2]
-      split <;> simp [Quiet, dlvOf, h1, h2, h3]
+      simp only [step, hotEmit]
+      split
+      · rename_i ho
+        have hec : (w.hotEntry && w.connCell) = false := by simpa [ho] using h3
+        simp [hec, Quiet, dlvOf, h1, h2]
+      · simp [Quiet, dlvOf, h1, h2, h3]
     | complete =>
-      simp only [step, hotEmit, h2]
-      split <;> simp [Quiet, dlvOf, h1, h2, h3]
+      simp only [step, hotEmit]
+      split
+      · rename_i ho
+        have hec : (w.hotEntry && w.connCell) = false := by simpa [ho] using h3
+        simp [hec, Quiet, dlvOf, h1, h2]
+      · simp [Quiet, dlvOf, h1, h2, h3]
   | connect => cases hk : w.kind <;> simp [step, hk, h1, Quiet, dlvOf, h2, h3]
   | q => simp [step, Quiet, dlvOf, h1, h2, h3]
 
